@@ -311,7 +311,14 @@ func lqSpecOf(in string) (string, bool) {
 	if !ok {
 		return "", false
 	}
-	spec := LSpec{Workers: atoiDef(h.kv["w"], 2), Items: h.items, Steps: h.steps, Fin: h.kv["fin"], Dir: "@DIR@", WaitMs: atoiDef(h.kv["wait"], 70000)}
+	spec := LSpec{Workers: atoiDef(h.kv["w"], 2), Items: h.items, Steps: h.steps, Fin: h.kv["fin"], Dir: "@DIR@", WaitMs: atoiDef(h.kv["wait"], 30000)}
+	if h.kv["wait"] == "" {
+		for _, st := range spec.Steps {
+			if st == "W" || st == "X" {
+				spec.WaitMs += 12000 // a producer timer flush and a finisher timer flush per round
+			}
+		}
+	}
 	b, _ := json.Marshal(spec)
 	return string(b), true
 }
